@@ -164,32 +164,26 @@ example : (run (W.init 80) [.pushStr [49], .pushStrAndBreakIf [46, 46], .pushStr
 
 /-! ## 5. `;` insertion -/
 
-/-- Full-strength statement: whenever the written expression ends in something a following `(`
-would call (a `)` or a prefix-expression atom), darklua's `expression_ends_with_prefix` says so
-(and `write_block` then inserts `;` before a statement starting with `(`). -/
-def semicolon_sound_full : Prop :=
-  ∀ (isPfx : Nat → Bool) (e : E),
-    endsCallable isPfx (printE e) = true → expressionEndsWithPrefix isPfx e = true
+/-- For every expression (with the model's numeral atoms kinded as numerals): darklua's
+`expression_ends_with_prefix` is true EXACTLY when the written tokens end in something a
+following `(` would call — a `)` (its own or one the printer adds) or a prefix-expression atom.
+`write_block` therefore inserts `;` before a `(`-starting statement exactly when needed. Full
+strength since the fix of finding F26. -/
+theorem semicolon_sound (isPfx : Nat → Bool) (e : E) (h : numeralsAreNotPrefix isPfx e = true) :
+    endsCallable isPfx (printE e) = expressionEndsWithPrefix isPfx e :=
+  semicolon_aux isPfx e h
 
-/-- Witness of finding F26: `a - (b and 1)` — the tree's right edge ends in a number, the text
-ends in the `)` the printer adds around the right operand. -/
+/-- Former witness of finding F26: `a - (b and 1)` — the tree's right edge ends in a number, the
+text ends in the `)` the printer adds around the right operand. -/
 def f26Witness : E := .bin .sub (.atom 0) (.bin .and (.atom 0) (.atom 1))
 
-theorem semicolon_sound_full_false : ¬ semicolon_sound_full := by
-  intro h
-  have := h (fun k => k == 0) f26Witness (by decide)
-  revert this
+-- regression: the fixed model sees the printer's own parenthesis
+example : endsCallable (fun k => k == 0) (printE f26Witness) = true ∧
+    expressionEndsWithPrefix (fun k => k == 0) f26Witness = true := by decide
+example : expressionEndsWithPrefix (fun k => k == 0) (.un .neg (.bin .add (.atom 0) (.atom 1))) = true ∧
+    expressionEndsWithPrefix (fun k => k == 0) (.un .neg (.bin .pow (.atom 0) (.atom 1))) = false := by decide
+-- non-vacuity of the kinding hypothesis
+example : numeralsAreNotPrefix (fun k => k == 0) (.bin .sub (.atom 1) (.bin .mul (.negnum 1) (.paren (.atom 1)))) = true := by
   decide
-
-/-- Under H₃ (the written form does not end with a printer-added parenthesis) darklua's
-recursion over the tree agrees exactly with the written tokens. -/
-theorem semicolon_sound_partial (isPfx : Nat → Bool) (e : E) (h : H3 isPfx e = true) :
-    endsCallable isPfx (printE e) = expressionEndsWithPrefix isPfx e :=
-  semicolon_partial_aux isPfx e h
-
-example : H3 (fun k => k == 0) (.bin .sub (.atom 1) (.bin .mul (.atom 1) (.paren (.atom 1)))) = true ∧
-    endsCallable (fun k => k == 0) (printE (.bin .sub (.atom 1) (.bin .mul (.atom 1) (.paren (.atom 1))))) = true := by
-  decide
-example : H3 (fun k => k == 0) f26Witness = false := by decide
 
 end DarkluaModel.C02
